@@ -9,12 +9,16 @@ From Burrow Require Import F32Proofs EvalProofs EvalCompleteProofs.
 Import ListNotations.
 Open Scope Z_scope.
 
-(* For every non-empty window, broker history, lag, allowed lag and clock value (inside the range
-   where Go's int64 stop-rule arithmetic cannot wrap) the computed status is the one the documented
-   decision list yields, and that list yields exactly one status. *)
+(* For every non-empty window, broker history, lag, allowed lag and clock value for which the three int64
+   operations of the stop rule do not wrap (`no_wrap`: now*1000, last - first and now*1000 - last fit an int64 --
+   the sharp guard; see C03_guard_from_storage for who discharges it and C03_outside_guard_refuted for what
+   happens outside) the computed status is the one the documented decision list yields, and that list yields
+   exactly one status.  `Spec` (EvalSpec.v) is declarative: integers, quantifiers over the window, no loops.
+   REWIND is "some backward step p -> c such that no commit from c on got back to p's offset" -- ANY backward
+   step since the repair recorded below (before it, only the first one of the window). *)
 Theorem C03_status_is_documented_procedure :
   forall offs brokers cur now allowed s,
-    offs <> [] -> no_overflow offs now ->
+    offs <> [] -> no_wrap offs now ->
     (calc_status (map Some offs) brokers cur now allowed = Ok s <-> Spec offs brokers cur now allowed s).
 Proof. exact calc_status_documented. Qed.
 Print Assumptions C03_status_is_documented_procedure.
@@ -40,11 +44,96 @@ Print Assumptions C03_shift_offsets.
 
 Theorem C03_shift_times :
   forall k offs brokers cur now allowed,
-    no_overflow offs now -> no_overflow (shift_times k offs) (now + k) ->
+    no_wrap offs now -> no_wrap (shift_times k offs) (now + k) ->
     calc_status_some (shift_times k offs) brokers cur (now + k) allowed
     = calc_status_some offs brokers cur now allowed.
 Proof. exact shift_times_invariant. Qed.
 Print Assumptions C03_shift_times.
+
+(* Who discharges the guard.  In a running Burrow the evaluator's clock is time.Now().Unix() (0 <= now, and
+   now*1000 fits an int64 until the year 292 million) and every stored commit timestamp is an int64 that is not
+   negative: storage admits a commit only if Timestamp >= (clock - expire-group)*1000 (inmemory.go, C09's
+   too-old-commit theorem) and the clock is past expire-group.  That is `storage_guard`, and it implies the sharp
+   guard; so does the coarse guard of the first version of this file (|now| < 2^51, |ts| < 2^61). *)
+Theorem C03_guard_from_storage :
+  forall offs now, storage_guard offs now -> no_wrap offs now.
+Proof. exact storage_guard_no_wrap. Qed.
+Print Assumptions C03_guard_from_storage.
+
+Theorem C03_guard_from_coarse_bounds :
+  forall offs now, no_overflow offs now -> no_wrap offs now.
+Proof. exact no_overflow_no_wrap. Qed.
+Print Assumptions C03_guard_from_coarse_bounds.
+
+(* Outside the guard code and documented procedure do part ways (the model mirrors the wrap, the probe's
+   `extreme` cases compare it with the code): timestamps -2^62 and 2^62 make last - first wrap, the code says STOP. *)
+Example C03_outside_guard_refuted :
+  let offs := [w_c 10 (-4611686018427387904) (Some 5); w_c 20 4611686018427387904 (Some 5)] in
+  ~ no_wrap offs 10 /\ ~ Stopped offs 10 /\ calc_status_some offs [30] 10 10 0 = StStop.
+Proof. exact overflow_refuted. Qed.
+Print Assumptions C03_outside_guard_refuted.
+
+(* REWIND: the model's test is the declarative clause, for every window *)
+Theorem C03_rewind_rule :
+  forall offs, rewound_unrecovered offs = true <-> RewoundUnrecovered offs.
+Proof. exact rewound_unrecovered_spec. Qed.
+Print Assumptions C03_rewind_rule.
+
+(* A second backward step that an earlier, recovered one used to hide (10, 5, 10, 3): REWIND.  Genuine defect of the
+   pinned tree, repaired in /repo by a fix: commit (known_findings.json, C03): before it calculatePartitionStatus
+   examined only the first backward step of the window and this window was WARN. *)
+Example C03_second_rewind_is_rewind :
+  RewoundUnrecovered second_rewind_window /\
+  calc_status_some second_rewind_window [30] 10 4 0 = StRewind.
+Proof. exact second_rewind_is_rewind. Qed.
+Print Assumptions C03_second_rewind_is_rewind.
+
+Example C03_second_rewind_masked_before_fix :
+  RewoundUnrecovered second_rewind_window /\ no_wrap second_rewind_window 4 /\
+  calc_status_some_v1 second_rewind_window [30] 10 4 0 = StWarn.
+Proof. exact second_rewind_masked_before_fix. Qed.
+Print Assumptions C03_second_rewind_masked_before_fix.
+
+Theorem C03_before_fix_agrees_without_rewind :
+  forall offs brokers cur now allowed,
+    rewind_index offs = None ->
+    calc_status_some_v1 offs brokers cur now allowed = calc_status_some offs brokers cur now allowed.
+Proof. exact v1_agrees_when_no_rewind. Qed.
+Print Assumptions C03_before_fix_agrees_without_rewind.
+
+(* Non-vacuity: one window per rule of the decision list, and one per precedence pair (both rules apply, the
+   earlier one wins).  Clock 10 s, commits at 1..3 s. *)
+Example C03_ex_rules :
+  calc_status_some [w_c 10 1000 (Some 5)] [30] 3 10 3 = StOK /\
+  calc_status_some [w_c 10 1000 (Some 5); w_c 20 2000 (Some 5)] [30] 10 10 0 = StStop /\
+  calc_status_some [w_c 10 1000 (Some 5); w_c 20 2000 (Some 5)] [30; 20] 10 10 0 = StWarn /\
+  calc_status_some [w_c 10 1000 (Some 5); w_c 5 2000 (Some 9); w_c 7 3000 (Some 9)] [30] 10 3 0 = StRewind /\
+  calc_status_some [w_c 10 1000 (Some 5); w_c 5 2000 (Some 9); w_c 10 3000 (Some 9)] [30] 10 3 0 = StWarn /\
+  calc_status_some [w_c 10 1000 (Some 5); w_c 11 2000 (Some 0); w_c 12 3000 (Some 9)] [30] 10 3 0 = StOK /\
+  calc_status_some [w_c 10 1000 (Some 5); w_c 10 2000 (Some 9); w_c 10 3000 (Some 9)] [30] 10 3 0 = StStall /\
+  calc_status_some [w_c 10 1000 (Some 5); w_c 11 2000 None; w_c 12 3000 (Some 9)] [30] 10 3 0 = StWarn /\
+  calc_status_some [w_c 10 1000 (Some 9); w_c 11 2000 None; w_c 12 3000 (Some 5)] [30] 10 3 0 = StOK.
+Proof.
+  repeat apply conj; [exact witness_within|exact witness_stop|exact witness_recent_zero_lifts_stop|exact witness_rewind|
+                 exact witness_rewind_recovered|exact witness_lag_ok|exact witness_stall|exact witness_warn|exact witness_else].
+Qed.
+Print Assumptions C03_ex_rules.
+
+Example C03_ex_precedence :
+  calc_status_some [w_c 10 1000 (Some 5); w_c 5 2000 (Some 9)] [30] 10 10 0 = StStop /\
+  calc_status_some [w_c 10 1000 (Some 0); w_c 5 2000 (Some 9); w_c 7 3000 (Some 9)] [30] 10 3 0 = StRewind /\
+  calc_status_some [w_c 10 1000 (Some 0); w_c 10 2000 (Some 9); w_c 10 3000 (Some 9)] [30] 10 3 0 = StOK /\
+  calc_status_some [w_c 10 1000 (Some 5); w_c 10 2000 (Some 6); w_c 10 3000 (Some 7)] [30] 10 3 0 = StStall.
+Proof.
+  repeat apply conj; [exact witness_stop_over_rewind|exact witness_rewind_over_lag_ok|exact witness_lag_ok_over_stall|
+                 exact witness_stall_over_warn].
+Qed.
+Print Assumptions C03_ex_precedence.
+
+(* Known divergence, unreachable: for a window with a nil entry in the MIDDLE that is stopped, Go dereferences only
+   the first and last entry and returns STOP, the model's calc_status says Crash.  Storage produces nil entries only
+   as a prefix (C02) and evaluatePartitionStatus slices that prefix off (C03_partition_gate), so no such window
+   reaches calculatePartitionStatus. *)
 
 (* evaluatePartitionStatus on a window with b unfilled slots followed by commits: the completeness
    gate decides between the rule procedure and OK; first/last commit are reported. *)
